@@ -183,7 +183,11 @@ C04_MatchedIsDurable ==
             IN (k > 0 /\ ~LogTermErr(Q, QS, k) /\ LogTerm(Q, QS, k) > 0) => DurableAt(j, k, LogTerm(Q, QS, k))
 
 C04_NonLeaderBounded ==
-    (Advanced /\ Q.role # "L") => Q.log.committed <= gh.maxLeaderCommit
+    (Advanced /\ Q.role # "L") =>
+        /\ Q.log.committed <= gh.maxLeaderCommit
+        \* ... and what it marks committed is the entry a leader committed there, not merely the same index
+        /\ \A k \in (P.log.committed + 1)..Q.log.committed :
+               (k <= Len(gh.CL) /\ gh.CL[k].ty # "?" /\ gh.clBy[k] > 0 /\ Retained(Q, QS, k)) => LogEntry(Q, QS, k) = gh.CL[k]
 
 -----------------------------------------------------------------------------
 (* C05  Log matching, leader append-only, committed prefix immutable         *)
@@ -651,6 +655,7 @@ Violations ==
     \cup Chk("C15.SendOnlyIfNeeded", C15_SendOnlyIfNeeded) \cup Chk("C15.ResumeAfterReport", C15_ResumeAfterReport)
     \cup Chk("C15.SnapshotState", C15_SnapshotState)
     \cup Chk("C15.InstallKeepsAcked", C15_InstallKeepsAcked)
+    \cup Chk("C15.NoResumeBeforeDone", C13_NoneWhileSnapshot)
     \cup Chk("C15.SnapshotNeverCrashes", C15_SnapshotNeverCrashes)
     \cup Chk("C16.PreVoteReqInert", C16_PreVoteReqInert) \cup Chk("C16.NoSelfTermBump", C16_NoSelfTermBump)
     \cup Chk("C16.NoDisruption", C16_NoDisruption)
